@@ -20,7 +20,7 @@ var initAllow = map[string]bool{
 	"sort": true, "internal/bytealg": false, "unicode/utf16": true, "math/big": false,
 	"io/fs": true, "internal/oserror": true, "syscall": false, "time": false, "os": false,
 	"slices": true, "cmp": true, "iter": true, "internal/itoa": true, "internal/stringslite": true,
-	"bufio": true, "text/scanner": false,
+	"bufio": true, "text/scanner": false, "regexp": true, "regexp/syntax": true,
 }
 
 func allowInit(path string) bool {
